@@ -1,6 +1,6 @@
 (* C15 — proofs: Dune::isAligned (debugalign.hh), i.e. libstdc++'s std::align bit trick, decides p mod 2^k = 0. *)
 From Coq Require Import List NArith Bool Arith Lia.
-From DuneV Require Import C15_Model C15_Spec C15_Proofs_Sys.
+From DuneV Require Import Params_gen C15_Model C15_Spec C15_Proofs_Sys.
 Local Open Scope N_scope.
 
 Lemma c15_testbit_high x n : x < 2 ^ 64 -> 64 <= n -> N.testbit x n = false.
@@ -35,7 +35,7 @@ Proof.
   assert (Ha62 : a <= 2 ^ 62) by (unfold a; apply N.pow_le_mono_r; lia).
   assert (E64 : 2 ^ 64 = a * 2 ^ (64 - k)) by (unfold a; rewrite <- N.pow_add_r; f_equal; lia).
   change (2 ^ 62) with 4611686018427387904 in Ha62.
-  unfold c15_isAligned, c15_spec_isAligned, c15_std_align, c15_wrap.
+  unfold c15_isAligned, c15_spec_isAligned, c15_std_align, c15_wrap, c15_param_isaligned_space_factor.
   change (2 ^ 64) with 18446744073709551616 in *.
   rewrite (N.mod_small (a * 2)) by lia.
   assert (Es : a * 2 <? a = false) by (apply N.ltb_ge; lia). rewrite Es.
@@ -73,3 +73,15 @@ Proof.
       apply N.mod_divide in Hdiv; [|exact Hane]. fold r in Hdiv. contradiction. }
     destruct (a * 2 - a <? _); [reflexivity|]. apply N.eqb_neq. exact Hne.
 Qed.
+
+(* the violation handler is consulted exactly for misaligned addresses; an empty handler lets the placement through *)
+Lemma c15_alignedbase_new_correct h p k : p < 2 ^ 64 -> k <= 62 ->
+  c15_alignedbase_new h p (2 ^ k) =
+    if p mod 2 ^ k =? 0 then PlacePlaced
+    else match h with HandlerDefault => PlaceAbort | HandlerUser => PlaceReported | HandlerEmpty => PlacePlaced end.
+Proof.
+  intros Hp Hk. unfold c15_alignedbase_new. rewrite (c15_isAligned_correct p k Hp Hk). reflexivity.
+Qed.
+
+Lemma c15_debug_alignment_pow2 : c15_debug_alignment = 2 ^ 5.
+Proof. reflexivity. Qed.
